@@ -848,10 +848,13 @@ func eval(s *Script, db *DB, from, to int64, r Reading, spanAnd bool) (sel *Sele
 			ea = min(ea, sp.TS)
 		}
 		ts.Recency = [5]int64{lm, lv, ev, la, ea}
-		if len(s.Sels) == 1 {
+		if len(s.Sels) == 1 || AllOr(s) {
+			// the spans of a selected trace: those matched by the selector; for {A} || {B} those matched by either
 			ids := map[string]bool{}
-			for _, sp := range matched[0][ti] {
-				ids[sp.SpanID] = true
+			for si := range s.Sels {
+				for _, sp := range matched[si][ti] {
+					ids[sp.SpanID] = true
+				}
 			}
 			for id := range ids {
 				ts.Spans = append(ts.Spans, id)
@@ -862,6 +865,19 @@ func eval(s *Script, db *DB, from, to int64, r Reading, spanAnd bool) (sel *Sele
 	}
 	sort.Slice(sel.Traces, func(i, j int) bool { return sel.Traces[i].ID < sel.Traces[j].ID })
 	return sel, e.inexact, nil
+}
+
+// AllOr tells whether the script is a chain of selectors joined by || only.
+func AllOr(s *Script) bool {
+	if len(s.Sels) < 2 {
+		return false
+	}
+	for _, o := range s.Ops {
+		if o != "||" {
+			return false
+		}
+	}
+	return true
 }
 
 // Verdict of EvalAll.
